@@ -33,7 +33,8 @@ type Global struct {
 	tags     map[string]int
 	tagTypes []types.Type
 	mu       sync.Mutex
-	writes   map[*ssa.Function]*writeSet
+	writes   map[writeKey]*writeSet
+	aboveMemo map[*types.Package]map[*types.Package]bool
 	cg       *callgraph.Graph
 	keyInfos map[string]*KeyInfo
 	files    map[string]*ast.File
@@ -43,6 +44,51 @@ type Global struct {
 	constGlobals map[*ssa.Global]*ssa.Const
 	nonNilGlobals map[*ssa.Global]bool
 	rtTypes  []types.Type
+}
+
+type writeKey struct {
+	fn   *ssa.Function
+	root *types.Package
+}
+
+// aboveLocked: in-repo packages that transitively import root.
+func (g *Global) aboveLocked(root *types.Package) map[*types.Package]bool {
+	if root == nil {
+		return nil
+	}
+	if a, ok := g.aboveMemo[root]; ok {
+		return a
+	}
+	res := map[*types.Package]bool{}
+	var imports func(p *types.Package, seen map[*types.Package]bool) bool
+	imports = func(p *types.Package, seen map[*types.Package]bool) bool {
+		if p == root {
+			return true
+		}
+		if seen[p] {
+			return false
+		}
+		seen[p] = true
+		for _, q := range p.Imports() {
+			if imports(q, seen) {
+				return true
+			}
+		}
+		return false
+	}
+	for _, p := range g.prog.AllPackages() {
+		if !g.inRepo(p.Pkg) || p.Pkg == root {
+			continue
+		}
+		if imports(p.Pkg, map[*types.Package]bool{}) {
+			res[p.Pkg] = true
+		}
+	}
+	if g.aboveMemo == nil {
+		g.aboveMemo = map[*types.Package]map[*types.Package]bool{}
+	}
+	g.aboveMemo[root] = res
+	return res
 }
 
 type writeSet struct {
@@ -79,7 +125,7 @@ func loadProgram(repo string, patterns []string) (*Global, error) {
 	prog, _ := ssautil.AllPackages(pkgs, ssa.GlobalDebug|ssa.InstantiateGenerics)
 	prog.Build()
 	g := &Global{fset: prog.Fset, pkgs: pkgs, prog: prog, C: NewContracts(), repo: repo, fnByKey: map[string]*ssa.Function{},
-		tags: map[string]int{}, writes: map[*ssa.Function]*writeSet{}, keyInfos: map[string]*KeyInfo{}, files: map[string]*ast.File{},
+		tags: map[string]int{}, writes: map[writeKey]*writeSet{}, keyInfos: map[string]*KeyInfo{}, files: map[string]*ast.File{},
 		used: map[string]map[string]bool{}, curInRepo: true}
 	g.allFns = ssautil.AllFunctions(prog)
 	g.findConstGlobals()
@@ -701,9 +747,12 @@ func (g *Global) instrDirect(in ssa.Instruction, ws *writeSet) {
 }
 
 // fnWrites returns the transitive write set of fn (over the CHA call graph).
-func (g *Global) fnWrites(fn *ssa.Function) (map[string]bool, bool) {
+// fnWrites computes the transitive write set of fn as seen from a function of package root: in-repo packages
+// that (transitively) import root are never entered (no re-entrance from connector-level code: assumption).
+func (g *Global) fnWrites(fn *ssa.Function, root *types.Package) (map[string]bool, bool) {
+	mk := writeKey{fn, root}
 	g.mu.Lock()
-	if w, ok := g.writes[fn]; ok {
+	if w, ok := g.writes[mk]; ok {
 		g.mu.Unlock()
 		return w.keys, w.all
 	}
@@ -711,6 +760,7 @@ func (g *Global) fnWrites(fn *ssa.Function) (map[string]bool, bool) {
 	cg := g.callGraph()
 	g.mu.Lock()
 	defer g.mu.Unlock()
+	above := g.aboveLocked(root)
 	// reachability from fn
 	seen := map[*ssa.Function]bool{}
 	stack := []*ssa.Function{fn}
@@ -722,7 +772,10 @@ func (g *Global) fnWrites(fn *ssa.Function) (map[string]bool, bool) {
 			continue
 		}
 		seen[f] = true
-		if w, ok := g.writes[f]; ok && f != fn {
+		if f != fn && f.Pkg != nil && above[f.Pkg.Pkg] {
+			continue
+		}
+		if w, ok := g.writes[writeKey{f, root}]; ok && f != fn {
 			for k := range w.keys {
 				res.keys[k] = true
 			}
@@ -752,7 +805,7 @@ func (g *Global) fnWrites(fn *ssa.Function) (map[string]bool, bool) {
 		res.all = res.all || dw.all
 		stack = append(stack, g.targetsLocked(cg, f)...)
 	}
-	g.writes[fn] = res
+	g.writes[mk] = res
 	return res.keys, res.all
 }
 
@@ -1010,7 +1063,11 @@ func (g *Global) callWrites(fn *ssa.Function, c *ssa.CallCommon) (map[string]boo
 		if g.isPureLib(f) {
 			return
 		}
-		k, a := g.fnWrites(f)
+		var root *types.Package
+		if fn != nil && fn.Pkg != nil {
+			root = fn.Pkg.Pkg
+		}
+		k, a := g.fnWrites(f, root)
 		for x := range k {
 			res[x] = true
 		}
